@@ -10,3 +10,4 @@ pub mod policies;
 pub mod sa;
 pub mod identity;
 pub mod misc;
+pub mod merkle;
